@@ -81,6 +81,7 @@ def c01(rep, env):
         only(rep, lambda r: SM.check_ctr_backend(r, fb), pre("par.closed-form"))
         only(rep, lambda r: SM.check_belt(r, fb, parts=("par",)), pre("par.closed-form"))
         only(rep, lambda r: CM.check_helpers(r, fb), pre("helpers.one-block", "helpers.par-group"))
+        MI.check_overrides(rep, fb)
     per_config(rep, env, f)
 
 
@@ -148,6 +149,7 @@ def c07(rep, env):
         only(rep, lambda r: SM.check_belt(r, fb, parts=("par",)), pre("par."))
         CM.check_helpers(rep, fb)
         MI.check_plumbing(rep, fb)
+        MI.check_overrides(rep, fb)
     per_config(rep, env, f)
 
 
@@ -223,6 +225,12 @@ def c13(rep, env):
         only(rep, lambda r: CM.check_layout(r, fb), lambda o: ".gate." in o["rule"] or o["rule"].endswith("no-panic") or o["rule"].endswith("case-covered"))
         CM.check_b2b(rep, fb)
         CM.check_wrappers(rep, fb)
+        # an inexact remaining-blocks report makes the byte-level API fail (or the panicking
+        # variant panic) without any contract violation
+        only(rep, lambda r: SM.check_ctr_remaining(r, fb), pre("rem."))
+        only(rep, lambda r: SM.check_ctr_core(r, fb), pre("rem."))
+        only(rep, lambda r: SM.check_belt(r, fb, parts=("rem",)), pre("rem."))
+        MI.check_overrides(rep, fb)
         MI.check_iv_sizes(rep, fb)
         MI.check_panic_sites(rep, fb)
     per_config(rep, env, f)
@@ -239,6 +247,7 @@ def c14(rep, env):
         MI.check_ofb_one_backend(rep, fb)
         MI.check_aliases(rep, fb)
         MI.check_no_own_keyinit(rep, fb)
+        MI.check_overrides(rep, fb)
         # "a core driven block-wise equals the byte-level cipher": the wrapper mixes single-block and
         # parallel calls, so the parallel bodies must agree with the one-block kernels
         only(rep, lambda r: SM.check_ctr_backend(r, fb), pre("par.closed-form", "ctr.ks.block", "ctr.ks.advance"))
@@ -253,6 +262,8 @@ def c15(rep, env):
         BM.check_dependence(rep, fb)
         # the propagation pattern over a multi-block call is that of the iterated one-block kernel
         only(rep, lambda r: BM.check_par(r, fb), pre("par.closed-form"))
+        # and the buffered CFB decryptor has the propagation pattern of CFB iff it is the CFB stream function
+        only(rep, lambda r: BC.check_definition(r, fb), lambda o: o["rule"].startswith("buf.") and "Decryptor" in o["instance"])
         only(rep, lambda r: SM.check_ctr_backend(r, fb), pre("ctr.ks.data-independent", "ctr.ks.block"))
         only(rep, lambda r: SM.check_belt(r, fb, parts=("def",)), pre("belt.ks.data-independent", "belt.ks.block"))
     per_config(rep, env, f)
